@@ -1118,6 +1118,8 @@ func (s *Server) checkFlushRequest(req *spb.FlushRequest) error {
 	}
 
 	id := req.GetId()
+	s.elecMu.RLock()
+	defer s.elecMu.RUnlock()
 	switch {
 	case id == nil && s.curElecID == nil:
 		// We are in ALL_PRIMARY mode and not given an election ID, which is fine.
